@@ -357,7 +357,15 @@ func loadCorpus[T any](c *Ctx, what string) []T {
 	return out
 }
 
+// extracting: inside `harness extract` a failing generator must not take the others down
+var extracting bool
+
+type extractFailure struct{ msg string }
+
 func fatal(format string, a ...any) {
+	if extracting {
+		panic(extractFailure{fmt.Sprintf(format, a...)})
+	}
 	fmt.Fprintf(os.Stderr, "harness: "+format+"\n", a...)
 	os.Exit(2)
 }
